@@ -491,6 +491,17 @@ def monitors(world, pid, snap, queues, run, hist_tags):
                 H('wrong-partition', 'after-cycle', (a.name, a.server))
             if traits != 0 and not s.traits.has(traits):
                 H('missing-traits', 'after-cycle', (a.name, a.server))
+            tn = getattr(world, 'trait_names', None)
+            if tn is not None:
+                # by NAME, from the stored manifest and server record (independent of the bit encoding)
+                r_ = tn(a.name, a.server)
+                if r_ is not None and not r_[0] <= r_[1]:
+                    H('missing-traits', 'after-cycle', (a.name, a.server, sorted(r_[0]), sorted(r_[1])))
+            pn = getattr(world, 'partition_names', None)
+            if pn is not None:
+                r_ = pn(a.name, a.server)
+                if r_ is not None and r_[0] != r_[1]:
+                    H('wrong-partition', 'after-cycle', (a.name, a.server, r_[0], r_[1]))
             if aid in gained:
                 if s.state is not sch.State.up:
                     H('assigned-to-non-up', 'assign', (a.name, a.server, s.state.value))
